@@ -395,6 +395,328 @@ def instances(ctx, rng, n_per_class, strict, umd=False):
     return out
 
 
+# =============================================================================================== constructor / deserialiser normalisers
+# from_json rebuilds every object THROUGH ITS CONSTRUCTOR (and through _deserialize_value): whatever code runs there
+# (__post_init__, a hand-written __init__ / __new__ / __setattr__, a descriptor, a helper they call, the deserialiser
+# itself) is applied a second time to a value it has already been applied to.  The round trip therefore needs every such
+# normaliser f to be a projection: f(f(s)) = f(s) (theorem C05_ctor_roundtrip_iff_idempotent; strip is one:
+# C05_strip_idempotent).  A normaliser that is not (remove ONE level of something: a regex substitution whose result can
+# match again, replace('  ', ' '), removeprefix, html.unescape, unquote, ...) is invisible on ordinary strings; the
+# strings that expose it are built from WHAT THE NORMALISER LOOKS FOR: the string constants and regular expressions
+# reachable from the construction hooks (harvested from the code objects of the CURRENT source, module-level patterns and
+# library helpers followed), each doubled, tripled, nested into itself and placed in its look-around context, plus an
+# exhaustive small alphabet of white space / line breaks and the classics of double encoding.
+_CTOR_HOOKS = ("__post_init__", "__init__", "__new__", "__setattr__", "__set__", "__set_name__", "__init_subclass__")
+_WS_ALPHABET = ("\n", " ", "\t", "\r", "a", " ")
+_CLASSICS = ("&amp;amp;lt;b&amp;gt;", "%252520a%2520", "a\\\\n\\\\\\\\b", "''a''", '""a""', "Re: Re: RE: a", "Fwd: Fw: a", "a\n\n b", "a\r\n\r\n\tb",
+             "  a  b   c    d  ", "a\n\n\n\nb", "=?utf-8?q?=3D=3F?=", "<<a>>", "((a))", "[[a]]", "a....b", "a--b---c", "a__b___c", "//a///b", "..//a",
+             "﻿﻿a", "a​​b", "AİıSSßﬁ", "é́", "ÅÅÅ", "0x0x1", "++1", "--1", "001", "1e1e1",
+             "a\x00\x00b", "a\x0b\x0c\x1c\x1d\x85   b", "\\n\\\\n", "a\\", "%%s", "{{a}}", "{a}", "$${a}", "a;;b", "a,,b", "a::b", "a||b", "a\t\t\tb")
+
+
+def _rx_sample(pattern, rng):
+    """one (before, consumed, after) of a regular expression: `consumed` matches, `before` / `after` satisfy its look-behind / look-ahead"""
+    try:
+        import re._parser as sp
+        import re._constants as sc
+    except ImportError:  # Python < 3.11
+        import sre_parse as sp
+        import sre_constants as sc
+    try:
+        tree = sp.parse(pattern)
+    except Exception:
+        return None
+    ctx_b, ctx_a = [], []
+    cat = {"CATEGORY_DIGIT": "7", "CATEGORY_SPACE": " ", "CATEGORY_WORD": "w", "CATEGORY_NOT_DIGIT": "x", "CATEGORY_NOT_SPACE": "x",
+           "CATEGORY_NOT_WORD": "-", "CATEGORY_LINEBREAK": "\n", "CATEGORY_NOT_LINEBREAK": "x"}
+
+    def cls(items):
+        pos, neg = [], False
+        for op, av in items:
+            name = str(op)
+            if name == "NEGATE":
+                neg = True
+            elif name == "LITERAL":
+                pos.append(chr(av))
+            elif name == "RANGE":
+                pos.append(chr(rng.choice([av[0], av[1], (av[0] + av[1]) // 2])))
+            elif name == "CATEGORY":
+                pos.append(cat.get(str(av), "x"))
+        if neg:
+            for c in "x -\n7":
+                if c not in pos:
+                    return c
+            return "~"
+        return rng.choice(pos) if pos else ""
+
+    def walk(seq, depth=0):
+        out = []
+        for op, av in seq:
+            name = str(op)
+            if name == "LITERAL":
+                out.append(chr(av))
+            elif name == "NOT_LITERAL":
+                out.append("x" if chr(av) != "x" else "y")
+            elif name == "ANY":
+                out.append("x")
+            elif name == "IN":
+                out.append(cls(av))
+            elif name in ("MAX_REPEAT", "MIN_REPEAT", "POSSESSIVE_REPEAT"):
+                lo, hi, sub = av
+                n = rng.choice([lo, min(lo + 1, hi), min(lo + 2, hi), min(max(lo, 1), hi)])
+                out.append("".join(walk(sub, depth + 1) for _ in range(min(n, 4))))
+            elif name == "SUBPATTERN":
+                out.append(walk(av[-1], depth + 1))
+            elif name == "ATOMIC_GROUP":
+                out.append(walk(av, depth + 1))
+            elif name == "BRANCH":
+                out.append(walk(rng.choice(av[1]), depth + 1))
+            elif name == "ASSERT":
+                direction, sub = av
+                (ctx_a if direction > 0 else ctx_b).append(walk(sub, depth + 1))
+            elif name == "CATEGORY":
+                out.append(cat.get(str(av), "x"))
+            # AT, ASSERT_NOT, GROUPREF, ...: no text
+        return "".join(out)
+
+    try:
+        body = walk(tree)
+    except Exception:
+        return None
+    return "".join(ctx_b), body, "".join(ctx_a)
+
+
+def _harvest_tokens(fns, rng, budget=400):
+    """string constants and regular expressions reachable from the code objects of `fns` (library helpers and module-level
+    names followed): [(before, token, after)]"""
+    import re as _re
+    import types as _types
+    lits, pats, seen, todo = [], [], set(), [(f, 0) for f in fns]
+
+    def consts(code):
+        for c in code.co_consts:
+            if isinstance(c, str):
+                yield c
+            elif isinstance(c, bytes):
+                yield c.decode("latin-1")
+            elif isinstance(c, (tuple, frozenset)):
+                for e in c:
+                    if isinstance(e, str):
+                        yield e
+            elif isinstance(c, _types.CodeType):
+                yield from consts(c)
+
+    def names(code):
+        yield from code.co_names
+        for c in code.co_consts:
+            if isinstance(c, _types.CodeType):
+                yield from names(c)
+
+    while todo and len(seen) < budget:
+        f, depth = todo.pop()
+        f = getattr(f, "__func__", f)
+        f = getattr(f, "__wrapped__", f)
+        code = getattr(f, "__code__", None)
+        if code is None or code in seen:
+            continue
+        seen.add(code)
+        doc = getattr(f, "__doc__", None)
+        for s in consts(code):
+            if s and s != doc and len(s) <= 40:
+                lits.append(s)
+        g = getattr(f, "__globals__", {})
+        for n in names(code):
+            v = g.get(n)
+            if isinstance(v, _re.Pattern):
+                pats.append(v.pattern if isinstance(v.pattern, str) else v.pattern.decode("latin-1"))
+            elif isinstance(v, str) and 0 < len(v) <= 40:
+                lits.append(v)
+            elif isinstance(v, (tuple, list, frozenset, set)) and len(v) <= 40:
+                lits += [e for e in v if isinstance(e, str) and 0 < len(e) <= 40]
+            elif isinstance(v, dict) and len(v) <= 60:
+                for k, e in v.items():
+                    lits += [t for t in (k, e) if isinstance(t, str) and 0 < len(t) <= 40]
+            elif depth < 3 and callable(v) and str(getattr(v, "__module__", "")).startswith("sharepoint2text"):
+                if isinstance(v, type):
+                    continue
+                todo.append((v, depth + 1))
+    toks = []
+    for s in dict.fromkeys(lits):
+        toks.append(("", s, ""))
+        if any(ch in s for ch in "\\[(|?*+^$"):      # a constant handed to re.sub / re.compile in place
+            pats.append(s)
+    for p in dict.fromkeys(pats):
+        for _ in range(4):
+            t = _rx_sample(p, rng)
+            if t and t[1]:
+                toks.append(t)
+    return list(dict.fromkeys(toks))
+
+
+def _token_probes(tokens):
+    out = []
+    for b, t, a in tokens:
+        out += [b + t + a, b + t + t + a, b + t + t + t + a, "x" + b + t + t + a + "y", t + t + "y", "x" + t + t, b + t + a + b + t + a, " " + t + " " + t + " "]
+        if a or b:
+            out += ["x" + b + t + a + "y", "x" + b + t + t + t + t + a + "y", a + t + t + b]
+        for i in range(1, min(len(t), 6)):
+            out.append("x" + t[:i] + t + t[i:] + "y")       # the token inside itself: removing one leaves one
+    return out
+
+
+def _ws_probes():
+    import itertools
+    out = []
+    for n in (1, 2, 3):
+        for tup in itertools.product(_WS_ALPHABET, repeat=n):
+            s = "".join(tup)
+            if s.strip("a"):
+                out.append("x" + s + "y")
+    for n in (1, 2):
+        for tup in itertools.product(_WS_ALPHABET[:4], repeat=n):
+            out.append("".join(tup) + "x" + "".join(tup))
+    return out
+
+
+def _hooks(cls):
+    """python-level code that runs while an instance of cls is built: hooks defined in the library along the MRO, descriptors"""
+    fns = []
+    for k in cls.__mro__:
+        if not str(getattr(k, "__module__", "")).startswith("sharepoint2text"):
+            continue
+        for n, v in vars(k).items():
+            code = getattr(getattr(v, "__func__", v), "__code__", None)
+            # library source only: not the dataclass-generated __init__, not typing.Protocol's _no_init_or_replace_init
+            if n in _CTOR_HOOKS and code is not None and (os.sep + "sharepoint2text" + os.sep) in code.co_filename:
+                fns.append(v)
+            elif isinstance(v, property) and v.fset is not None:
+                fns.append(v.fset)
+            elif not isinstance(v, (type, staticmethod, classmethod)) and hasattr(type(v), "__set__") and hasattr(type(v).__set__, "__code__"):
+                fns.append(type(v).__set__)
+    for f in dataclasses.fields(cls):
+        if f.default_factory is not dataclasses.MISSING and hasattr(f.default_factory, "__code__"):
+            fns.append(f.default_factory)
+    return fns
+
+
+def _put(tp, s, g, d=0):
+    """a value of hint tp that carries the string s (None: the hint has no place for a string)"""
+    origin, args = typing.get_origin(tp), typing.get_args(tp)
+    if tp is str or tp is typing.Any:
+        return s
+    if tp is bytes:
+        return s.encode("utf-8", "surrogatepass")
+    if origin is typing.Union or origin is types.UnionType:
+        for a in args:
+            if a is not type(None):
+                v = _put(a, s, g, d)
+                if v is not None:
+                    return v
+        return None
+    if origin is list and d < 2:
+        v = _put(args[0] if args else typing.Any, s, g, d + 1)
+        return None if v is None else [v, v]
+    if origin is dict and d < 2:
+        v = _put(args[1] if len(args) > 1 else typing.Any, s, g, d + 1)
+        if v is None or (args and args[0] not in (str, typing.Any)):
+            return None
+        return {("k" + s if s in MARKERS else s): v, "k": v}
+    return None
+
+
+_CTOR_ARGS = {}      # id(instance) -> (instance, the instance as it was BUILT: ["o", class, constructor arguments])
+
+
+def _with_ctor_args(x, name, kw):
+    # a replay rebuilds the instance through its constructor: it has to record what the constructor was GIVEN, not the
+    # attributes the constructor left (with a normaliser that is not a projection the two differ, and the recorded
+    # attributes would be normalised a second time by the replay itself)
+    _CTOR_ARGS[id(x)] = (x, ["o", name, [[k, enc(v)] for k, v in kw.items()]])
+    return x
+
+
+def _built_value(x):
+    hit = _CTOR_ARGS.get(id(x))
+    return hit[1] if hit is not None and hit[0] is x else enc(x)
+
+
+def normaliser_probes(ctx, rng, per_field=None):
+    """[(class name, field, instance)]: every concrete registered class x every field that can carry a string x the probe strings.
+    Classes with construction hooks get the full vocabulary (hook tokens + deserialiser tokens + white-space alphabet + classics),
+    the others share it round-robin (their only normaliser is the deserialiser, which treats all classes alike)."""
+    from sharepoint2text.parsing.extractors import serialization as S
+    g = TypeDirected(rng, strict=True)
+    ser_fns = [v for v in vars(S).values() if isinstance(v, types.FunctionType) and v.__module__ == S.__name__]
+    common = _token_probes(_harvest_tokens(ser_fns, rng)) + _ws_probes() + list(_CLASSICS)
+    common = list(dict.fromkeys(common))
+    out, rr = [], 0
+    for name in g.names:
+        cls = g.reg[name]
+        if g.abstract(cls):
+            continue
+        hooks = _hooks(cls)
+        hints = typing.get_type_hints(cls)
+        slots = [f for f in dataclasses.fields(cls) if f.init and _put(hints.get(f.name, typing.Any), "s", g) is not None]
+        if not slots:
+            continue
+        if hooks:
+            vocab = list(dict.fromkeys(_token_probes(_harvest_tokens(hooks, rng)) + common))
+            if per_field:
+                vocab = vocab[:0] + rng.sample(vocab, min(len(vocab), per_field))
+        else:
+            k = ctx.n(10, 60)
+            vocab = [common[(rr + i) % len(common)] for i in range(k)]
+            rr += k
+        try:
+            base = g.instance(cls, 4)      # required fields only: the probes are the content
+        except Exception:
+            continue
+        kw0 = {f.name: getattr(base, f.name) for f in dataclasses.fields(cls) if f.init}
+        if hooks:
+            for f in slots:
+                for s in vocab:
+                    try:
+                        kw = dict(kw0, **{f.name: _put(hints.get(f.name, typing.Any), s, g)})
+                        out.append((name, f.name, _with_ctor_args(cls(**kw), name, kw)))
+                    except Exception:
+                        pass
+        else:
+            for i, s in enumerate(vocab):     # all string slots at once, the vocabulary rotated over them
+                try:
+                    kw = dict(kw0, **{f.name: _put(hints.get(f.name, typing.Any), vocab[(i + q) % len(vocab)], g) for q, f in enumerate(slots)})
+                    out.append((name, "*", _with_ctor_args(cls(**kw), name, kw)))
+                except Exception:
+                    pass
+    return out
+
+
+def probe_violations(ctx, probes):
+    """the property statement on every probe instance (real code only); [(instance, [Violation])] of the failing ones, first per key"""
+    from sharepoint2text.parsing.extractors import serialization as S
+    from sharepoint2text.parsing.extractors.data_types import ExtractionInterface
+    bad, seen = [], set()
+    for i, (name, fname, x) in enumerate(probes):
+        if i % 40:      # every 40th probe goes through the whole oracle; the others first through its core (the round trip)
+            try:
+                j = S.serialize_extraction(x)
+                y = ExtractionInterface.from_json(json.loads(json.dumps(j)))
+                if type(y) is type(x) and S.serialize_extraction(y) == j:
+                    continue
+            except Exception:
+                pass
+        try:
+            vs = [v for v in check_value(x, {"value": _built_value(x)}) if v.key not in {k for k, _ in WITNESSES}]
+        except Exception:
+            continue
+        vs = [v for v in vs if (v.key, name, fname) not in seen]
+        if vs:
+            for v in vs:
+                seen.add((v.key, name, fname))
+                v.what = f"[constructor/deserialiser normaliser probe, field {name}.{fname}] " + v.what
+            bad.append((x, vs))
+    return bad
+
+
 def xlsx_bytes(rows):
     import openpyxl
     wb = openpyxl.Workbook()
@@ -1403,7 +1725,7 @@ def _cmp_rt(ctx, tag, desc, x, o, broken, counters):
         bad.append(("ser(include_binary=False)", enc(jn), o.get("jn")))
     if "back_unmodelled" in o:
         counters["unmodelled"] += 1      # non-canonical base64 text (possible in loose / malformed cases only)
-        if tag in ("strict", "fixture", "fixture-unit", "generated-xlsx"):
+        if tag in ("strict", "strict-probe", "fixture", "fixture-unit", "generated-xlsx"):
             bad.append(("deser outcome", "model leaves its fragment on a typed value", o["back_unmodelled"]))
     elif "ok" in back:
         if "back_ok" not in o:
@@ -1605,6 +1927,24 @@ def correspondence(ctx):
         cases.append(("strict+marker-dicts", None, x))
     for x in instances(ctx, rng, ctx.n(8, 20), strict=False, umd=True):
         cases.append(("loose", None, x))
+    # (a'') constructor / deserialiser normalisers: strings built from what the construction hooks and the deserialiser look for
+    # (doubled, nested, in look-around context), white-space alphabet, double-encoding classics; in every string slot of
+    # every class.  All of them are judged on the real code (round trip = the property's core); the failing ones and a
+    # rotating sample go to the model as well
+    import random as _random
+    prng = _random.Random(ctx.seed * 104729 + 11)
+    _CTOR_ARGS.clear()
+    probes = normaliser_probes(ctx, prng)
+    pbad = probe_violations(ctx, probes)
+    ctx.count("probe/instances-judged-on-the-real-code", len(probes))
+    ctx.count("probe/failing", len(pbad))
+    for x, vs in pbad[:6]:
+        cases.append(("strict-probe", None, x))
+        for v in vs:
+            if not any(o.key == v.key for o in violations):
+                violations.append(v)
+    for name, fname, x in prng.sample(probes, min(len(probes), ctx.n(250, 1500))):
+        cases.append(("strict-probe", None, x))
     # top-level values that are not dataclass instances (serialize_extraction wraps them in {"value": ..})
     g = TypeDirected(rng, strict=False, untyped_marker_dicts=True)
     for _ in range(ctx.n(500, 4000)):
@@ -2373,7 +2713,7 @@ def search(ctx, broken):
                 add(check_cli_inputs(ctx, [c["input"]]))
             elif c.get("value"):
                 x = dec(c["value"])
-                if c.get("source") in ("strict", "strict+marker-dicts", "codec") and dataclasses.is_dataclass(x):
+                if c.get("source") in ("strict", "strict-probe", "strict+marker-dicts", "codec") and dataclasses.is_dataclass(x):
                     add(check_value(x, {"value": c["value"]}))
             elif c.get("doc") is not None and isinstance(c["doc"], dict):
                 pass  # a malformed document is outside the property's quantifier; the typed stream below decides
@@ -2383,6 +2723,8 @@ def search(ctx, broken):
     add(_oracle_fixed_witnesses())
     # 3. the typed stream, extractor results, generated workbooks, CLI
     rng = ctx.rng
+    for x, vs in probe_violations(ctx, normaliser_probes(ctx, rng)):      # constructor / deserialiser normaliser probes
+        add(vs)
     for x in instances(ctx, rng, ctx.n(6, 30), strict=True):
         add(check_value(x, {"value": enc(x)}))
         if _stream_leaves(x):      # the same with equal payloads in several streams (the same file attached twice)
